@@ -95,3 +95,9 @@ typedef void (*GenFn)(const std::string &tier, uint64_t seed, long idx, Scn &out
 typedef long (*PlanFn)(const std::string &tier);
 struct PropDef { const char *id; PlanFn plan; GenFn gen; RunFn run; };
 const PropDef *find_prop(const std::string &id);
+
+// wall-clock watchdog (SIGALRM) of the current process; remembers the CPU time consumed so far, so that the handler can
+// tell a CPU loop from a process asleep in an unsimulated blocking primitive (main.cpp)
+void arm_watchdog(int secs);
+extern int g_wd_waiting_for_child;
+struct ChildWait { ChildWait() { g_wd_waiting_for_child++; } ~ChildWait() { g_wd_waiting_for_child--; } };
